@@ -361,6 +361,24 @@ def step (exact : Bool) (st : RSt) (w : List String) : RSt × String :=
                   | none => render st m1 "ok" (toString n))
                | none => render st m "ok" "0")
             | none => render st m "ok" "0"
+        | "selfset", [i] =>
+          match nat? i with
+          | some i =>
+            if i ≥ count m h ∨ kindOf m h = some .vst ∨ kindOf m h = some .dbl ∨ kindOf m h = some .uref then bad
+            else
+              -- the source is the copy of the element bytes taken before the call (before a detach)
+              let src := (((m.handle h).bind m.buf?).map fun x0 => x0.elems.getD i (.arr none)).getD (.arr none)
+              let (m1, r) := detach m h
+              match r.bind m1.buf?, r with
+              | some x, some b =>
+                let old := x.elems.getD i (.arr none)
+                let (m2, e) := copyElem m1 src
+                let m3 := match m2.buf? b with
+                  | some y => m2.setBuf b { y with elems := y.elems.set i e }
+                  | none => m2
+                render st (finiElem m3 old) "ok" "ptr"
+              | _, _ => render st m1 "refused" "null"
+          | none => bad
         | "mnew", [k, sh] =>
           match nat? k, nat? sh with
           | some k, some sh =>
